@@ -57,10 +57,15 @@ def describe(x, sim=None, with_value=True):
     return d
 
 
-def diff_desc(a, b, fields=FIELDS + ("value",)):
+def diff_desc(a, b, fields=FIELDS + ("value",), other_config=False):
     for f in fields:
         if f == "value" and (str(a.get(f)).startswith("raised") or str(b.get(f)).startswith("raised")):
             # a program that does not compute at all (on either side) is C01's matter, not a naming one
+            continue
+        if f == "value" and other_config and np.dtype(a.get("dtype", "f8")).kind in "fc":
+            # values travel as bit fingerprints; under ANOTHER planner configuration (tree fan-in, fusion,
+            # chunk plan) an inexact result may legitimately differ in the last bits (C09 compares those
+            # with a tolerance); exact dtypes are still compared
             continue
         if a.get(f) != b.get(f):
             return f, a.get(f), b.get(f)
@@ -322,8 +327,8 @@ def execute(case, stats, log):
         o = m.origin.get(var)
         return o is None or _has_opaque(recipe, o)
 
-    def check_same(i, what, a, b, var, fields=FIELDS + ("value",)):
-        d = diff_desc(a, b, fields)
+    def check_same(i, what, a, b, var, fields=FIELDS + ("value",), other_config=False):
+        d = diff_desc(a, b, fields, other_config)
         if d:
             raise Violation(ID, what, f"event {i}: {var}: {d[0]} differs: {d[1]!r} vs {d[2]!r}", step=i)
 
@@ -361,7 +366,8 @@ def execute(case, stats, log):
             m.origin[ev["out"]] = org
             stats["pickle_checks"] = stats.get("pickle_checks", 0) + 1
             check_same(i, "pickle-changes-collection", desc0, desc1,
-                       f"{v0} (dumped earlier, loaded now{' under ' + str(ev['config']) if ev.get('config') else ''})", PICKLE_FIELDS)
+                       f"{v0} (dumped earlier, loaded now{' under ' + str(ev['config']) if ev.get('config') else ''})", PICKLE_FIELDS,
+                       other_config=bool(ev.get("config")))
             continue
         if kind == "restart":
             vs = [v for v in ev["vars"] if v in m.pool]
@@ -404,7 +410,8 @@ def execute(case, stats, log):
                         raise Violation(ID, "unpickle-raises", f"event {i}: unpickling {v} in a fresh interpreter raised {res['unpickled']['error']}", step=i)
                     check_same(i, "pickle-changes-collection", here, res["unpickled"],
                                f"{v} unpickled in a fresh interpreter (PYTHONHASHSEED={ans.get('hashseed')}"
-                               f"{', receiver config ' + str(ev['recv_config']) if ev.get('recv_config') else ''})", PICKLE_FIELDS)
+                               f"{', receiver config ' + str(ev['recv_config']) if ev.get('recv_config') else ''})", PICKLE_FIELDS,
+                               other_config=bool(ev.get("recv_config")))
                     if here.get("graph_keys") != res["unpickled"].get("graph_keys"):
                         stats["unclaimed.graph_keys_differ_after_pickle"] = stats.get("unclaimed.graph_keys_differ_after_pickle", 0) + 1
                 if "rebuilt" in res:
@@ -476,10 +483,14 @@ def _pre_f12(case, result):
     # boolean mask and the uncast DEFAULT fill value (int64 999999 / float64 1e20) is cast to the
     # array's dtype -- so the token of EVERY masked meta changes across a pickle round trip, whatever
     # its dtype (first seen for small ints, where even the fill value's number changes: 999999 -> 63).
-    if result.get("cls") != "rebuild-in-process-differs":
+    if result.get("cls") not in ("rebuild-in-process-differs", "rebuild-in-fresh-process-differs"):
         return False
     srcs = case["recipe"]["sources"]
-    return any(sp.get("masked") for sp in srcs.values()) and any(e["ev"] in ("pickle", "load") for e in case["history"])
+    # the same mechanism for unknown chunk sizes: a pickled nan is another object, (nan,) != (nan,), so
+    # nodes carried by an unpickled copy compare/tokenize differently from freshly built ones
+    unknown = any(s_["op"] in ("dask_index", "where_mask") for s_ in case["recipe"]["steps"])
+    return (any(sp.get("masked") for sp in srcs.values()) or unknown) and any(
+        e["ev"] in ("pickle", "load") for e in case["history"])
 
 
 def _cfgs(e):
